@@ -191,7 +191,8 @@ def eval_real(case):
 def eval_slow(case):
     """Engine B, wall clock: many silent targets queued behind few threads.  Every target must still get its block."""
     n = case['silent']
-    specs = [dict(HEALTHY['good'], banner='SSH-2.0-OpenSSH_9.3')] + [{'faults': [['connect', '*', 'stall']]} for _ in range(n)]
+    # (the healthy server is the last one listed: it is scanned after everybody else has been waited for)
+    specs = [{'faults': [['connect', '*', 'stall']]} for _ in range(n)] + [dict(HEALTHY['good'], banner='SSH-2.0-OpenSSH_9.3')]
     peers = [fakenet.peer_from_spec(sp) for sp in specs]
     fails = []
     with drive.RealServers(peers) as rs:
@@ -205,6 +206,10 @@ def eval_slow(case):
         fails.append(['slow-list-exit-status-%d' % r.code, 'silent %d threads %d: tail %r' % (n, case['threads'], r.out[-200:])])
     if got is None or len(got) != n + 1:
         fails.append(['slow-list-number-of-result-blocks', 'silent %d threads %d mode %s: %r blocks for %d targets' % (n, case['threads'], case['mode'], None if got is None else len(got), n + 1)])
+    else:
+        reports = [b for b in got if (isinstance(b, dict) and 'kex' in b) or (isinstance(b, str) and report.TextReport(b).has_algorithm_report())]
+        if len(reports) != 1:
+            fails.append(['healthy-target-behind-slow-ones-lost-its-report', 'silent %d threads %d mode %s: %d reports among the blocks; tail %r' % (n, case['threads'], case['mode'], len(reports), r.out[-300:])])
     return mkres(case, nt=True, classes=['engine-B', 'wall-clock', 'threads:%d' % case['threads']], fails=fails)
 
 
@@ -353,7 +358,7 @@ def run(ctx):
     for _ in range(8 if ctx.quick else 120):
         b = [x for x in REAL_OK if x not in ('bad-block-size', 'bad-padding', 'probe-bad-block', 'ssh1-bad-crc')]
         real.append({'kind': 'real', 'kinds': [rng.choice(sorted(HEALTHY)), rng.choice(b), rng.choice(sorted(HEALTHY)), rng.choice(b)], 'mode': rng.choice(['text', 'json']), 'threads': rng.choice([1, 2, 4])})
-    slow = [{'kind': 'slow', 'silent': 8, 'threads': 1, 'mode': 'json'}] + ([] if ctx.quick else [{'kind': 'slow', 'silent': 8, 'threads': 1, 'mode': 'text'}, {'kind': 'slow', 'silent': 12, 'threads': 2, 'mode': 'json'}, {'kind': 'slow', 'silent': 20, 'threads': 3, 'mode': 'text'}])
+    slow = [{'kind': 'slow', 'silent': 8, 'threads': 1, 'mode': 'json'}, {'kind': 'slow', 'silent': 26, 'threads': 1, 'mode': 'text'}]      # (the second one waits through more than twenty timeouts) + ([] if ctx.quick else [{'kind': 'slow', 'silent': 8, 'threads': 1, 'mode': 'text'}, {'kind': 'slow', 'silent': 12, 'threads': 2, 'mode': 'json'}, {'kind': 'slow', 'silent': 20, 'threads': 3, 'mode': 'text'}])
     ctx.map(real + slow, chunk=1)
     ctx.note(traces_validated_against_impl=len(real) + len(slow))
     ctx.note(failure_archetypes=sorted(BAD), healthy_archetypes=sorted(HEALTHY))
